@@ -181,7 +181,17 @@ class Utf8StreamLogger(TracepointLogger):
             raise
 
 
-_KINDS = {'res': _ResMixin, 'dec': _DecMixin, 'log': _LogMixin, 'logp': _LogMixinOwnNames, 'met': _MetMixin, 'span': _SpanMixin}
+class _SpanMixinSampling(_SpanMixin):
+    """A span processor that declines some spans (returns None for them), as a sampling tracer does."""
+
+    def create_span(self, name, context_id, tracepoint_id):
+        idx = _rec(self.name, 'span_declined_or_open', {'name': name, 'tp': tracepoint_id})
+        if idx % 2 == 0:
+            return None
+        return super().create_span(name, context_id, tracepoint_id)
+
+
+_KINDS = {'res': _ResMixin, 'dec': _DecMixin, 'log': _LogMixin, 'logp': _LogMixinOwnNames, 'met': _MetMixin, 'span': _SpanMixin, 'span_sampling': _SpanMixinSampling}
 
 
 def make(name, kinds, order=0, attrs=None, fail_ctor=False, falsy=None, display_name=None, deregister=False):
